@@ -1,2 +1,167 @@
-/- Property theorems for C19 (placeholder until the proofs land). -/
-import Avt.Spec.C19
+/-
+  Avt.Props.C19 — RIS returns the terminal to its power-on state from anywhere.
+
+  All statements are unbounded (every size, every limit, every state satisfying the invariant, every
+  parser state) and are stated with the definitions of Avt/Spec/C19.lean that the oracle evaluates
+  on the implementation (`normR`, `freshVt`).  Helpers: Avt/Lemmas/C19.lean.
+
+  Obligations (full strength, nothing partial):
+    Avt.Props.C19.C19_hardReset             hard_reset = Terminal::new of the current configuration
+    Avt.Props.C19.C19_hardReset_fields      … spelled out field by field (incl. cursor_keys_mode)
+    Avt.Props.C19.C19_esc_aborts            ESC then 'c' dispatches Ris from every parser state and
+                                            leaves the power-on parser (registers included)
+    Avt.Props.C19.C19_ris                   ESC c from any state = the power-on Vt (normR-equal, in fact equal)
+    Avt.Props.C19.C19_ris_feedStr           the same through feed_str (changes()/gc() tail), incl. the returned Changes
+    Avt.Props.C19.C19_ris_then              … and for every continuation input
+    Avt.Props.C19.C19_reset_covers_fields   translator-tied: every field of `struct Terminal` is assigned by
+                                            `hard_reset` or is one of cols/rows/scrollback_limit/xtwinops
+    Avt.Props.C19.C19_xtwinops_never_assigned
+-/
+import Avt.Lemmas.C19
+
+namespace Avt.Props.C19
+open Avt Avt.Spec.C19 Avt.Lemmas.C19
+
+/-- `hard_reset` succeeds on every terminal with at least one row and yields exactly what
+    `Terminal::new` builds for the current size and scrollback limit — every field, the dirty flags
+    included (`normR` is not even needed at this level). -/
+theorem C19_hardReset (t : Terminal) (hx : t.xtwinops = false) (hr : 1 ≤ t.rows) :
+    ∃ t', t.hardReset = some t' ∧ Terminal.new t.cols t.rows t.scrollbackLimit = some t' := by
+  rw [hardReset_eq_new t hx]
+  unfold Terminal.new
+  rw [show csub t.rows 1 = some (t.rows - 1) by simp [csub, hr]]
+  exact ⟨_, rfl, rfl⟩
+
+/-- the same, field by field, from the model of `hard_reset` alone (no reference to `Terminal::new`):
+    blank primary screen with empty scrollback and the configured limit, blank alternate screen,
+    primary active, cursor home and visible, default pen, all modes reset (including the cursor-key
+    mode), full-screen margins, default tab stops and character sets, empty saved contexts on both
+    screens, all rows reported changed; size and limit kept. -/
+theorem C19_hardReset_fields (t t' : Terminal) (h : t.hardReset = some t') :
+    t'.cols = t.cols ∧ t'.rows = t.rows ∧ t'.scrollbackLimit = t.scrollbackLimit ∧ t'.xtwinops = t.xtwinops
+    ∧ t'.buffer = Buffer.new t.cols t.rows t.scrollbackLimit none
+    ∧ t'.buffer.sb = [] ∧ t'.buffer.view = List.replicate t.rows (Line.blank t.cols Pen.default)
+    ∧ t'.otherBuffer = Buffer.new t.cols t.rows (some 0) none
+    ∧ t'.activeBufferType = .primary
+    ∧ t'.cursor = { col := 0, row := 0, visible := true }
+    ∧ t'.pen = Pen.default
+    ∧ t'.charsets = (.ascii, .ascii) ∧ t'.activeCharset = 0
+    ∧ t'.tabs = Tabs.new t.cols
+    ∧ t'.insertMode = false ∧ t'.originMode = false ∧ t'.autoWrapMode = true ∧ t'.newLineMode = false
+    ∧ t'.cursorKeysMode = .normal
+    ∧ t'.pendingWrap = false
+    ∧ t'.topMargin = 0 ∧ t'.bottomMargin + 1 = t.rows
+    ∧ t'.savedCtx = {} ∧ t'.alternateSavedCtx = {}
+    ∧ t'.dirtyLines = List.replicate t.rows true := by
+  unfold Terminal.hardReset at h
+  cases hr : csub t.rows 1 with
+  | none => simp [hr] at h
+  | some r1 =>
+    simp only [hr, Option.map_some, Option.some.injEq] at h
+    subst h
+    have : r1 + 1 = t.rows := by
+      unfold csub at hr
+      split at hr
+      · simp only [Option.some.injEq] at hr; omega
+      · simp at hr
+    refine ⟨rfl, rfl, rfl, rfl, rfl, rfl, rfl, rfl, rfl, rfl, rfl, rfl, rfl, rfl, rfl, rfl, rfl, rfl, rfl, rfl, rfl, this,
+      rfl, rfl, rfl⟩
+
+/-- `ESC` aborts whatever sequence or string the parser is in (it is matched before every arm that
+    could consume it — checked over the table regenerated from `Parser::feed`), and `c` then
+    dispatches `Ris`; the parser is left in `Ground` with the registers of `Parser::new`. -/
+theorem C19_esc_aborts (p : Parser) (h : PInv p = true) :
+    ∃ p1, p.feed 0x1b = some (p1, none) ∧ p1.feed 0x63 = some (Parser.new, some Function.ris) :=
+  escAborts p h
+
+/-- **C19.**  From any state satisfying the invariant (any history, any modes, alternate screen,
+    parser inside any sequence or string), `ESC c` yields the state of a freshly built `Vt` of the
+    current size and scrollback limit — equal up to `normR`, and in fact equal. -/
+theorem C19_ris (v v' : Vt) (h : Inv v = true) (hf : v.feedAll [0x1B, 0x63] = some v') :
+    ∃ f, freshVt v = some f ∧ normR v' = normR f ∧ v' = f := by
+  rw [feedAll_ris v h] at hf
+  exact ⟨v', hf, rfl, rfl⟩
+
+/-- `ESC c` never panics on a terminal with at least one row -/
+theorem C19_ris_total (v : Vt) (h : Inv v = true) (hr : 1 ≤ v.terminal.rows) :
+    (v.feedAll [0x1B, 0x63]).isSome = true := by
+  rw [feedAll_ris v h]
+  simp [Vt.new, Terminal.new, csub, hr]
+
+/-- through the public `feed_str` (which ends with `changes()` and `gc()`): the call behaves exactly
+    like an empty `feed_str` on a fresh terminal — same resulting state, same returned `Changes` (all
+    rows, no scrollback lines); the resulting state is the fresh one up to dirty flags. -/
+theorem C19_ris_feedStr (v : Vt) (h : Inv v = true) :
+    v.feedStr [0x1B, 0x63] = (freshVt v).bind (fun f => f.feedStr [])
+    ∧ ∀ v' ch, v.feedStr [0x1B, 0x63] = some (v', ch) →
+        ∃ f, freshVt v = some f ∧ v' = normR f ∧ normR v' = normR f := by
+  have h1 : v.feedStr [0x1B, 0x63] = (freshVt v).bind (fun f => f.feedStr []) := by
+    unfold Vt.feedStr freshVt
+    rw [feedAll_ris v h]
+    cases Vt.new v.terminal.cols v.terminal.rows v.terminal.scrollbackLimit <;> rfl
+  refine ⟨h1, ?_⟩
+  intro v' ch hv
+  rw [h1] at hv
+  unfold freshVt at hv ⊢
+  cases hn : Vt.new v.terminal.cols v.terminal.rows v.terminal.scrollbackLimit with
+  | none => simp [hn] at hv
+  | some f =>
+    simp only [hn, Option.bind_some, Vt.feedStr, Vt.feedAll, Option.map_some, Option.some.injEq] at hv
+    have hfin := finish_new _ _ _ f hn
+    have : v' = normR f := by rw [← hfin, hv]
+    refine ⟨f, rfl, this, ?_⟩
+    rw [this]
+    simp [normR, Dirty.clear]
+
+/-- "… and it reacts to every subsequent input exactly like the fresh one": after `ESC c`, every
+    continuation gives what it gives on the fresh terminal (state and panics alike). -/
+theorem C19_ris_then (v : Vt) (h : Inv v = true) (xs : List Nat) :
+    v.feedAll ([0x1B, 0x63] ++ xs) = (freshVt v).bind (fun f => f.feedAll xs) := by
+  rw [feedAll_append, feedAll_ris v h]
+  rfl
+
+/-- the translator-tied completeness obligation, over the lists regenerated from `struct Terminal`
+    and from the body of `hard_reset` on every run: a field that `hard_reset` forgets (as
+    `cursor_keys_mode` was before fix F3) makes this fail. -/
+theorem C19_reset_covers_fields :
+    ∀ f ∈ Gen.terminalFields,
+      f ∈ Gen.hardResetAssigned ∨ f ∈ ["cols", "rows", "scrollback_limit", "xtwinops"] := by
+  decide
+
+/-- `xtwinops` is assigned nowhere in `terminal.rs` besides its initialiser (so it stays `false`,
+    `CSI 8;r;c t` is inert, and no function can change `cols`/`rows`) -/
+theorem C19_xtwinops_never_assigned : Gen.xtwinopsAssignments = 0 := by decide
+
+/-- a non-trivial history on a 7x4 terminal with scrollback limit 3: application cursor keys, text,
+    a custom tab stop, bold pen, a saved context, the alternate screen (`?1049h`), margins 2..3,
+    origin mode, and the parser left inside a CSI parameter list -/
+def exHistory : List Nat :=
+  [0x1b, 0x5b, 0x3f, 0x31, 0x68,                      -- CSI ?1h
+   0x61, 0x62, 0x63, 0x1b, 0x48,                      -- abc HTS
+   0x1b, 0x5b, 0x31, 0x6d, 0x1b, 0x37,                -- bold, save
+   0x1b, 0x5b, 0x3f, 0x31, 0x30, 0x34, 0x39, 0x68,    -- CSI ?1049h
+   0x1b, 0x5b, 0x32, 0x3b, 0x33, 0x72,                -- CSI 2;3r
+   0x1b, 0x5b, 0x3f, 0x36, 0x68,                      -- CSI ?6h
+   0x78, 0x1b, 0x5b, 0x35, 0x3b]                      -- x CSI 5;
+
+def exState : Option Vt := (Vt.new 7 4 (some 3)).bind (fun v0 => v0.feedAll exHistory)
+
+theorem exState_isSome : exState.isSome = true := by decide +kernel
+
+/-- the hypotheses are satisfiable on that state, and `ESC c` gives the fresh 7x4 terminal -/
+example :
+    let v := exState.get exState_isSome
+    Inv v = true ∧ v.parser.state = .CsiParam ∧ v.terminal.activeBufferType = .alternate
+      ∧ v.terminal.cursorKeysMode = .application ∧ v.terminal.originMode = true
+      ∧ v.terminal.tabs ≠ Tabs.new 7
+      ∧ v.feedAll [0x1B, 0x63] = Vt.new 7 4 (some 3)
+      ∧ ∃ f, freshVt v = some f ∧ (v.feedAll [0x1B, 0x63]).map normR = some (normR f) := by
+  refine ⟨by decide +kernel, by decide +kernel, by decide +kernel, by decide +kernel, by decide +kernel,
+    by decide +kernel, by decide +kernel, ?_⟩
+  have hinv : Inv (exState.get exState_isSome) = true := by decide +kernel
+  rw [feedAll_ris _ hinv]
+  cases hf : freshVt (exState.get exState_isSome) with
+  | none => exact absurd hf (by decide +kernel)
+  | some f => exact ⟨f, rfl, by unfold freshVt at hf; rw [hf]; rfl⟩
+
+end Avt.Props.C19
